@@ -10,5 +10,6 @@ CONSTANTS
     Mode = "edges"
     Depth = 0
     Eager = TRUE
+    SSHook = FALSE
 VIEW View
 CHECK_DEADLOCK FALSE
